@@ -36,21 +36,34 @@ def parsing_module():
     return P
 
 
-def make_scores(ntok, ncat, base):
+def make_scores(ntok, ncat, base, layout='f32'):
+    """layout: 'f32' C-contiguous float32 (what the taggers deliver), 'f64' float64 (numpy's default dtype), 'f32view' a strided float32
+    view into a larger buffer"""
     if SYMBOLIC:
         from engines.pysym import stubs
-        return stubs.Arr2([[('cell', base, i, c) for c in range(ncat)] for i in range(ntok)]), stubs.Arr2([[('dep', base, i, h) for h in range(ntok + 1)] for i in range(ntok)])
+        kw = dict(dtype='float64' if layout == 'f64' else 'float32', c_contiguous=(layout != 'f32view'))
+        return (stubs.Arr2([[('cell', base, i, c) for c in range(ncat)] for i in range(ntok)], **kw),
+                stubs.Arr2([[('dep', base, i, h) for h in range(ntok + 1)] for i in range(ntok)], **kw))
     import numpy
-    tag = numpy.array([[-(1 + base * 100 + i * 10 + c) for c in range(ncat)] for i in range(ntok)], dtype=numpy.float32)
-    dep = numpy.array([[-(500 + base * 100 + i * 10 + h) for h in range(ntok + 1)] for i in range(ntok)], dtype=numpy.float32)
-    return tag, dep
+    dt = numpy.float64 if layout == 'f64' else numpy.float32
+    k = 3.0 if layout == 'f64' else 1.0          # float64 cells that float32 cannot represent
+    tagv = [[-(1 + base * 100 + i * 10 + c) / k for c in range(ncat)] for i in range(ntok)]
+    depv = [[-(500 + base * 100 + i * 10 + h) / k for h in range(ntok + 1)] for i in range(ntok)]
+    if layout == 'f32view':
+        bt, bd = numpy.zeros((ntok, 2 * ncat), dtype=dt), numpy.zeros((ntok, 2 * (ntok + 1)), dtype=dt)
+        tag, dep = bt[:, ::2], bd[:, ::2]
+        tag[:, :], dep[:, :] = tagv, depv
+        return tag, dep
+    return numpy.array(tagv, dtype=dt), numpy.array(depv, dtype=dt)
 
 
-def neg_value():
+def neg_value(a=None):
     if SYMBOLIC:
         return NEG
     import numpy
-    return float(numpy.float32(NEG))     # the arrays are float32: the large negative value as stored
+    if a is not None and a.dtype == numpy.float64:
+        return NEG
+    return float(numpy.float32(NEG))     # float32 arrays: the large negative value as stored
 
 
 def cell(a, i, c):
@@ -59,7 +72,7 @@ def cell(a, i, c):
     return float(a[i, c])
 
 
-def h_filter(d, lens, nwords, batch_form):
+def h_filter(d, lens, nwords, batch_form, layout='f32'):
     from depccg.cat import Category
     from depccg.types import Token, ScoringResult
     P = parsing_module()
@@ -85,7 +98,7 @@ def h_filter(d, lens, nwords, batch_form):
             else:
                 w = 'w%d' % i
             toks.append(Token(word=w, lemma='l', pos='P', entity='O', chunk='I'))
-        tag, dep = make_scores(n, len(cats), s)
+        tag, dep = make_scores(n, len(cats), s, layout)
         doc.append(toks)
         srs.append(ScoringResult(tag, dep))
         olds.append(([[cell(tag, i, c) for c in range(len(cats))] for i in range(n)], [[cell(dep, i, h) for h in range(n + 1)] for i in range(n)]))
@@ -114,7 +127,7 @@ def h_filter(d, lens, nwords, batch_form):
             for c in range(len(cats)):
                 new, old = cell(rt, i, c), olds[s][0][i][c]
                 if which is not None and c not in listed[which]:
-                    if new != neg_value():
+                    if new != neg_value(rt):
                         return ('unlisted-category-not-masked', s, i, c)
                 elif new != old:
                     return ('score-changed-where-it-must-not', s, i, c, which is not None)
@@ -204,6 +217,10 @@ def obligations(tier):
                     continue
                 yield Obligation('C17.filter[lens=%s,words=%d,%s]' % (list(lens), nwords, 'batch' if batch_form else 'single'), 'h_filter',
                                  dict(lens=list(lens), nwords=nwords, batch_form=batch_form), cost=sum(lens) * nwords)
+    for layout in ('f64', 'f32view'):
+        for lens, batch_form in (((2,), True), ((1,), False), ((2, 1), True)):
+            yield Obligation('C17.filter[lens=%s,words=1,%s,%s scores]' % (list(lens), 'batch' if batch_form else 'single', layout), 'h_filter',
+                             dict(lens=list(lens), nwords=1, batch_form=batch_form, layout=layout), cost=4)
     for mode in ('mutate', 'reorder', 'other-dict'):
         yield Obligation('C17.history[%s]' % mode, 'h_history', dict(mode=mode), cost=5)
     for ntok in (1, 2):
